@@ -76,3 +76,72 @@ def _allx(f):
 
 lemma('L_le1_distinct', [('L', LI), ('n', INT)], lambda L, n: Implies(_le1(L, n), _distinct(L, n)), ind='n',
       hints=lambda L, n: [LEMMAS['L_CountI_mem'](L, n - 1, L_arr(L, LI)[n - 1]), _allx(lambda x: LEMMAS['L_CountI_step'](L, n - 1, x))])
+
+
+# ---- cardinality (termination of the work-list search and of prune_states): double counting over the value range [0, N)
+# SumC(L, n, N) = sum over x in [0, N) of the occurrences of x among the first n elements of L
+SumC = spec('SumC', [LI, INT, INT], INT)
+SPEC['SumC']['unfold'] = lambda L, n, N: SumC(L, n, N) == If(N <= 0, IntVal(0), SumC(L, n, N - 1) + CountI(L, n, N - 1))
+
+
+def _inrange(L, n, N):
+    return _allk(n, lambda k: And(0 <= L_arr(L, LI)[k], L_arr(L, LI)[k] < N), 'k!r')
+
+
+def _countle(A, nA, B, nB):
+    x = Int('x!le')
+    return ForAll([x], CountI(A, nA, x) <= CountI(B, nB, x))
+
+
+lemma('L_SumC_zero', [('L', LI), ('N', INT)], lambda L, N: SumC(L, IntVal(0), N) == 0, ind='N')
+lemma('L_SumC_step', [('L', LI), ('n', INT), ('N', INT)],
+      lambda L, n, N: Implies(n >= 0, SumC(L, n + 1, N) == SumC(L, n, N) + If(And(0 <= L_arr(L, LI)[n], L_arr(L, LI)[n] < N), 1, 0)), ind='N',
+      hints=lambda L, n, N: [LEMMAS['L_CountI_step'](L, n, N - 1)])
+lemma('L_SumC_len', [('L', LI), ('n', INT), ('N', INT)], lambda L, n, N: Implies(_inrange(L, n, N), SumC(L, n, N) == n), ind='n',
+      hints=lambda L, n, N: [LEMMAS['L_SumC_zero'](L, N), LEMMAS['L_SumC_step'](L, n - 1, N)])
+lemma('L_SumC_le', [('L', LI), ('n', INT), ('N', INT)], lambda L, n, N: Implies(_le1(L, n), SumC(L, n, N) <= N), ind='N')
+# pigeonhole: a duplicate-free list over [0, N) has at most N elements
+lemma('L_pigeon', [('L', LI), ('n', INT), ('N', INT)],
+      lambda L, n, N: Implies(And(n >= 0, N >= 0, _distinct(L, n), _inrange(L, n, N)), n <= N),
+      hints=lambda L, n, N: [_allx(lambda x: LEMMAS['L_distinct_le1'](L, n, x)), LEMMAS['L_SumC_len'](L, n, N), LEMMAS['L_SumC_le'](L, n, N)])
+lemma('L_SumC_mono', [('A', LI), ('nA', INT), ('B', LI), ('nB', INT), ('N', INT)],
+      lambda A, nA, B, nB, N: Implies(_countle(A, nA, B, nB), SumC(A, nA, N) <= SumC(B, nB, N)), ind='N')
+
+
+def _eq_below(A, nA, B, nB, N):
+    x = Int('x!eb')
+    return ForAll([x], Implies(And(0 <= x, x < N), CountI(A, nA, x) == CountI(B, nB, x)))
+
+
+lemma('L_SumC_eq', [('A', LI), ('nA', INT), ('B', LI), ('nB', INT), ('N', INT)],
+      lambda A, nA, B, nB, N: Implies(And(_countle(A, nA, B, nB), SumC(A, nA, N) == SumC(B, nB, N)), _eq_below(A, nA, B, nB, N)), ind='N',
+      hints=lambda A, nA, B, nB, N: [LEMMAS['L_SumC_mono'](A, nA, B, nB, N - 1)])
+
+
+def _subset(A, nA, B, nB):
+    a, b = Int('a!ss'), Int('b!ss')
+    return ForAll([a], Implies(And(0 <= a, a < nA), Exists([b], And(0 <= b, b < nB, L_arr(B, LI)[b] == L_arr(A, LI)[a]))))
+
+
+lemma('L_subset_countle', [('A', LI), ('nA', INT), ('B', LI), ('nB', INT), ('x', INT)],
+      lambda A, nA, B, nB, x: Implies(And(_distinct(A, nA), _subset(A, nA, B, nB)), CountI(A, nA, x) <= CountI(B, nB, x)),
+      hints=lambda A, nA, B, nB, x: [LEMMAS['L_distinct_le1'](A, nA, x), LEMMAS['L_CountI_mem'](A, nA, x), LEMMAS['L_CountI_mem'](B, nB, x)])
+lemma('L_count_subset', [('A', LI), ('nA', INT), ('B', LI), ('nB', INT), ('N', INT), ('b', INT)],
+      lambda A, nA, B, nB, N, b: Implies(And(_inrange(B, nB, N), _eq_below(A, nA, B, nB, N), 0 <= b, b < nB),
+                                         _exk(nA, lambda k: L_arr(A, LI)[k] == L_arr(B, LI)[b])),
+      hints=lambda A, nA, B, nB, N, b: [LEMMAS['L_CountI_mem'](A, nA, L_arr(B, LI)[b]), LEMMAS['L_CountI_mem'](B, nB, L_arr(B, LI)[b])])
+
+
+def _allb(f):
+    b = Int('b!q')
+    return ForAll([b], f(b))
+
+
+# a duplicate-free list contained in another one over [0, N) is not longer, and if it is as long the two have the same elements
+lemma('L_subset_card', [('A', LI), ('nA', INT), ('B', LI), ('nB', INT), ('N', INT)],
+      lambda A, nA, B, nB, N: Implies(And(nA >= 0, nB >= 0, N >= 0, _distinct(A, nA), _inrange(A, nA, N), _inrange(B, nB, N), _subset(A, nA, B, nB)),
+                                      And(nA <= nB, Implies(nA == nB, _subset(B, nB, A, nA)))),
+      hints=lambda A, nA, B, nB, N: [_allx(lambda x: LEMMAS['L_subset_countle'](A, nA, B, nB, x)),
+                                     LEMMAS['L_SumC_len'](A, nA, N), LEMMAS['L_SumC_len'](B, nB, N),
+                                     LEMMAS['L_SumC_mono'](A, nA, B, nB, N), LEMMAS['L_SumC_eq'](A, nA, B, nB, N),
+                                     _allb(lambda b: LEMMAS['L_count_subset'](A, nA, B, nB, N, b))])
